@@ -395,10 +395,12 @@ Definition exec_instr (i : instr) (σ : vm) : outcome vm :=
   | IIsUndefined => match stk with a :: r => next σ (VBool (is_undef a) :: r) s | _ => Panic end
   | IEnclose x => next σ stk (enclose1 c s x)
   | IGetClosure =>
-      match s_env s with
-      | f :: _ => next σ (match f_closure f with Some id => VInt (Z.of_nat id) | None => VUndef end :: stk) s
-      | [] => Panic
-      end
+      (* Context::closure unwraps the innermost frame; there always is one (the base frame): the
+         frameless case is given the answer the interpreter gives (no closure) *)
+      next σ (match s_env s with
+              | f :: _ => match f_closure f with Some id => VInt (Z.of_nat id) | None => VUndef end
+              | [] => VUndef
+              end :: stk) s
   end.
 
 Definition step (σ : vm) : outcome vm :=
